@@ -24,6 +24,8 @@ func init() {
 	vRegister("H18_vec", H18_vec)
 	vRegister("H19_nth", H19_nth)
 	vRegister("H14_large", H14_large)
+	vRegister("H16_fields", H16_fields)
+	vRegister("H10_vec", H10_vec)
 	vNativeResetHooks = append(vNativeResetHooks, faiss.VerifReset)
 }
 
@@ -284,7 +286,7 @@ func H14_search() {
 func H15_vecmerge() {
 	sim := index.EuclideanDistance
 	n0 := 1 + vChoice("n0", vParam("maxDocs", 2))
-	n1 := 1 + vChoice("n1", vParam("maxDocs", 2))
+	n1 := 1 + vChoice("n1", vParam("maxDocs1", vParam("maxDocs", 2))) // (the second input may be kept smaller)
 	docs0, vecs0 := vGenVecBatch("a", n0, sim)
 	docs1, vecs1 := vGenVecBatch("b", n1, sim)
 	s0 := vBuildInput(docs0, DefaultChunkMode, vParam("reopen", 1) == 1 && vBool("reopen0"), vP("in0.zap"))
@@ -784,4 +786,136 @@ func H14_large() {
 	vRunSpawned()
 	vAssert(faiss.VerifLive() == 0, "no-live-index")
 	vAssert(faiss.VerifDoubleClosed() == 0 && faiss.VerifUsedAfterClose() == 0, "no-misuse")
+}
+
+// H16_fields: the cache with two vector fields (adjacent field ids): handles on one field are opened, used and
+// closed while the other field's entry ages and expires. Every search answers as a fresh segment would, an
+// entry is never released while a handle on *its* field is open, and entries without holders do expire.
+func H16_fields() {
+	sim := index.EuclideanDistance
+	docs := []index.Document{
+		&vDoc{id: "d0", fields: []index.Field{vIDField("d0"), &vVecField{name: "u", vec: vCatalogue[4], sim: sim}, &vVecField{name: "v", vec: vCatalogue[0], sim: sim}}},
+		&vDoc{id: "d1", fields: []index.Field{vIDField("d1"), &vVecField{name: "u", vec: vCatalogue[3], sim: sim}, &vVecField{name: "v", vec: vCatalogue[1], sim: sim}}},
+	}
+	vecs := map[string][]sVec{"u": {{0, vCatalogue[4]}, {1, vCatalogue[3]}}, "v": {{0, vCatalogue[0]}, {1, vCatalogue[1]}}}
+	var z ZapPlugin
+	segI, _, err := z.newWithChunkMode(docs, DefaultChunkMode)
+	vAssert(err == nil, "build")
+	sb := segI.(*SegmentBase)
+	vGuardMap(sb.vecIndexCache.cache, &sb.vecIndexCache.m)
+	type handle struct {
+		vi    segment.VectorIndex
+		field string
+	}
+	var open []handle
+	maxEv := vParam("maxEvents", 5)
+	for e := 0; e < maxEv; e++ {
+		switch vChoice(fmt.Sprint("ev", e), 5) {
+		case 0, 1: // open field u / v
+			f := []string{"u", "v"}[vChoice(fmt.Sprint("ev", e), 5)]
+			vi, err := sb.InterpretVectorIndex(f, false, nil)
+			vAssert(err == nil && vi != nil, "interpret")
+			open = append(open, handle{vi, f})
+		case 2: // search on every open handle
+			for _, h := range open {
+				q := vCatalogue[1]
+				pl, err := h.vi.Search(q, 2, nil)
+				vAssert(err == nil, "search-err")
+				sCheckVecResult(pl, vecs[h.field], sim, q, 2, func(uint64) bool { return true }, h.field+"-")
+			}
+		case 3: // close the oldest handle
+			if len(open) == 0 {
+				continue
+			}
+			open[0].vi.Close()
+			open = open[1:]
+		case 4: // a quiet period: several expiry passes in a row
+			for i := 0; i < 6; i++ {
+				sb.vecIndexCache.cleanup()
+				vRunSpawned()
+			}
+			// entries without holders are gone after a quiet period, entries with holders are still cached
+			held := map[string]bool{}
+			for _, h := range open {
+				held[h.field] = true
+			}
+			sb.vecIndexCache.m.RLock()
+			for _, f := range []string{"u", "v"} {
+				_, cached := sb.vecIndexCache.cache[sb.fieldsMap[f]]
+				vAssert(cached == held[f], "cached-iff-held-"+f)
+			}
+			sb.vecIndexCache.m.RUnlock()
+		}
+		held := map[string]bool{}
+		for _, h := range open {
+			held[h.field] = true
+		}
+		vAssert(faiss.VerifLive() >= len(held), "released-while-open")
+		vAssert(faiss.VerifUsedAfterClose() == 0, "use-after-release")
+		vAssert(faiss.VerifDoubleClosed() == 0, "double-release")
+	}
+	for _, h := range open {
+		h.vi.Close()
+	}
+	vAssert(sb.Close() == nil, "close")
+	vRunSpawned()
+	vAssert(faiss.VerifLive() == 0, "no-live-index")
+	vAssert(faiss.VerifDoubleClosed() == 0 && faiss.VerifUsedAfterClose() == 0, "no-misuse")
+}
+
+// H10_vec (C10 under the vectors tag): a vector batch and a plain batch built one after the other on the pooled
+// builder, in either order: the plain segment has no vector index on any field (and the content of its own
+// batch), the vector segment holds exactly its own vectors.
+func H10_vec() {
+	sim := index.EuclideanDistance
+	var z ZapPlugin
+	plainCfg := gCfg{prefix: "b", idBase: "b", nDocs: 1 + vChoice("bDocs", vParam("bMax", 1)), wide: -1, noFx: true,
+		fields: []gField{
+			{name: "f", terms: []string{"a"}, tv: true, maxLocs: 1, store: true},
+			{name: "g", terms: []string{"c"}, dv: true},
+		}}
+	checkPlain := func(seg segment.Segment, sp *sSpec, tag string) {
+		sCheckStored(seg, sp, tag)
+		sCheckPostings(seg, sp, tag)
+		for _, f := range []string{"f", "g", "u", "v", "_id"} {
+			vi, err := seg.(segment.VectorSegment).InterpretVectorIndex(f, false, nil)
+			vAssert(err == nil && vi != nil, tag+"interpret")
+			pl, err := vi.Search(vCatalogue[0], 4, nil)
+			vAssert(err == nil && pl != nil && pl.Count() == 0, tag+"phantom-vectors")
+			vi.Close()
+		}
+		st := &vStatsSink{n: map[string]uint64{}}
+		seg.(segment.FieldStatsReporter).UpdateFieldStats(st)
+		vAssert(len(st.n) == 0, tag+"phantom-stats")
+	}
+	vecDocs, vecs := vGenVecBatch("a", 2, sim)
+	vecFirst := vBool("vecFirst")
+	if !vecFirst {
+		docs, sp := vGenBatch(plainCfg)
+		seg, _, err := z.newWithChunkMode(docs, DefaultChunkMode)
+		vAssert(err == nil, "plain-build")
+		checkPlain(seg, sp, "p1-")
+	}
+	vseg, _, err := z.newWithChunkMode(vecDocs, DefaultChunkMode)
+	vAssert(err == nil, "vec-build")
+	vi, err := vseg.(segment.VectorSegment).InterpretVectorIndex("v", false, nil)
+	vAssert(err == nil && vi != nil, "interpret")
+	pl, err := vi.Search(vCatalogue[0], 8, nil)
+	vAssert(err == nil, "search-err")
+	sCheckVecResult(pl, vecs, sim, vCatalogue[0], 8, func(uint64) bool { return true }, "v-")
+	vi.Close()
+	if vecFirst {
+		docs, sp := vGenBatch(plainCfg)
+		seg, _, err := z.newWithChunkMode(docs, DefaultChunkMode)
+		vAssert(err == nil, "plain-build")
+		checkPlain(seg, sp, "p2-")
+		if vBool("reopen") {
+			vAssert(seg.(*SegmentBase).Persist(vP("p.zap")) == nil, "persist")
+			o, err := z.Open(vP("p.zap"))
+			vAssert(err == nil, "open")
+			checkPlain(o, sp, "p2o-")
+			vAssert(o.Close() == nil, "close")
+		}
+	}
+	vRunSpawned()
 }
